@@ -62,9 +62,12 @@ class Executor:
         self.mismatch = None
         self.any_fault_fired = False
         self.prior_calls = 0
+        self.ref_digests = []
+        self.probes = [[id(object()), 0, 0]]
 
     # ----------------------------------------------------------- set-up
     def setup(self):
+        self.probes.append([id(object()), 1, 0])
         from sim import refserver, seams
         self.seams = seams
         os.makedirs(self.scratch, exist_ok=True)
@@ -72,9 +75,13 @@ class Executor:
         self.ref = refserver.RefServer(self.scratch)
         m = self.mode
         self.addr = None
-        if m.get('addr') == 'sim':
+        self.addr_logs = []
+        if m.get('addr') in ('sim', 'native'):
+            # 'native': the seam passes real id() values through and records
+            # them, so that a violation can be replayed exactly (§3.3)
             self.addr = seams.AddressSeam()
-            self.addr.set_layout(m['layout'][0], m['layout'][1])
+            if m['addr'] == 'sim':
+                self.addr.set_layout(m['layout'][0], m['layout'][1])
             self.addr.install(self.mods)
             self.notes += self.addr.notes
         self.files = None
@@ -96,6 +103,7 @@ class Executor:
                 self.notes.append(self.probe.note)
         self.tracer = seams.CrashTracer(os.path.join(os.path.realpath(REPO_ROOT), 'propka'))
         self.new_cwd([])
+        self.probes.append([id(object()), 2, 0])
 
     # ----------------------------------------------------------- helpers
     def real_open(self, *a, **k):
@@ -163,7 +171,7 @@ class Executor:
             elif op == 'threshold':
                 gc.set_threshold(*p['args'])
         elif kind == 'relayout':
-            if self.addr is not None:
+            if self.addr is not None and self.mode.get('addr') == 'sim':
                 self.addr.set_layout(p['layout'][0], p['layout'][1])
         elif kind == 'clock':
             if self.clock is not None:
@@ -330,6 +338,7 @@ class Executor:
 
     def expected(self, call):
         """Reference observation for a call, from the per-input references."""
+        from sim import record
         exp = {'pka_files': {}}
         ins = call['inputs']
         for n, iid in enumerate(ins):
@@ -340,6 +349,7 @@ class Executor:
             ref = self.ref.request(key, inp['text'], inp['stem'], call['options'],
                                    self.params.get(call.get('param')) if call.get('param') else None,
                                    call.get('suffix', '.pdb'))
+            self.ref_digests.append([len(self.events), iid, record.digest(ref)])
             if 'exc' in ref:
                 exp['exc'] = ref['exc']
                 break
@@ -379,16 +389,20 @@ class Executor:
         operations and per-function line events so that a fault lands inside
         the operation.  The parent's state is untouched; .pka files the child
         wrote are rolled back."""
+        from sim import refserver
         saved = {}
-        for n in os.listdir(self.cwd):
+        for n in sorted(os.listdir(self.cwd)):
             if n.endswith('.pka'):
                 with self.real_open(os.path.join(self.cwd, n), 'rb') as fh:
                     saved[n] = fh.read()
-        r, w = os.pipe()
+        cpath = os.path.join(self.scratch, 'census.bin')
+        try:
+            os.unlink(cpath)
+        except OSError:
+            pass
         pid = os.fork()
         if pid == 0:
             try:
-                os.close(r)
                 self.nfile += 500
                 if self.files is not None:
                     self.files.reset_counts()
@@ -402,21 +416,15 @@ class Executor:
                 counts = sorted(([k[0], k[1], v] for k, v in self.tracer.counts.items()))
                 data = json.dumps({'n': self.files.n if self.files else {},
                                    'funcs': counts}).encode()
-                off = 0
-                while off < len(data):
-                    off += os.write(w, data[off:off + 65536])
+                refserver.write_blob(cpath, data)
             finally:
                 os._exit(0)
-        os.close(w)
-        buf = b''
-        while True:
-            chunk = os.read(r, 65536)
-            if not chunk:
-                break
-            buf += chunk
-        os.close(r)
         os.waitpid(pid, 0)
-        for n in os.listdir(self.cwd):
+        try:
+            buf = refserver.read_blob(cpath)
+        except OSError:
+            buf = b''
+        for n in sorted(os.listdir(self.cwd)):
             p = os.path.join(self.cwd, n)
             if n.endswith('.pka'):
                 if n not in saved:
@@ -461,10 +469,20 @@ class Executor:
         return {'kind': kind, 'k': k, 'arg': arg}
 
     # ----------------------------------------------------------- steps
+    def probe_heap(self, tag):
+        if os.environ.get('VERIF_HEAP_PROBES'):
+            self.probes.append([tag, id(object()), id([None] * 3), id({'a': 1}),
+                                id(bytearray(700)), id(bytearray(70000))])
+
     def run_step(self, i, step):
         from sim import record
+        self.probe_heap('start%d' % i)
+        if self.addr is not None and self.mode.get('addr') == 'native':
+            self.addr.log = []
+            self.addr_logs.append(self.addr.log)
         for p in step.get('perturb', []):
             self.perturb(p, step)
+        self.probe_heap('perturbed%d' % i)
         call = step['call']
         fault = step.get('fault')
         armed = None
@@ -474,10 +492,12 @@ class Executor:
                 call['stream_kind'] = 'unseekable'
             armed = self.arm_fault(fault, call)
         exp = self.expected(call)
+        self.probe_heap('expected%d' % i)
         if self.files is not None:
             self.files.reset_counts()
             self.files.disarm()
         thunk, meta = self.prepare(call)
+        self.probe_heap('prepared%d' % i)
         if self.files is not None:
             self.files.reset_counts()
             if armed and armed['kind'] in ('open-fail', 'read-fail', 'write-torn', 'close-fail'):
@@ -513,8 +533,10 @@ class Executor:
             k = fired['kind']
             self.stats['faults_fired'][k] = self.stats['faults_fired'].get(k, 0) + 1
             self.any_fault_fired = True
+        self.probe_heap('invoked%d' % i)
         obs = self.observe(status, value, before)
         value = None
+        self.probe_heap('observed%d' % i)
         orders = self.probe.take() if self.probe is not None else []
         for o in orders:
             dg = record.digest(o)
@@ -541,6 +563,7 @@ class Executor:
                     len(call['inputs'])],
             'trivial': trivial})
         self.prior_calls += 1
+        self.probes.append([id(object()), id([None] * 3), id({'a': 1})])
         self.events.append({
             'i': i, 'step': record.digest(step), 'fired': fired,
             'orders': record.digest(orders), 'status': status,
@@ -553,6 +576,8 @@ class Executor:
                 'expected': _clip(e), 'observed': _clip(o),
                 'call': {k: v for k, v in call.items()},
                 'after_fault': self.any_fault_fired}
+            if self.addr_logs:
+                self.mismatch['native_address_logs'] = self.addr_logs
             return False
         return True
 
@@ -573,9 +598,26 @@ class Executor:
             'fingerprint': hashlib.sha256(record.canon(self.events).encode()).hexdigest()[:20],
             'outcomes': [e['outcome'] for e in self.events],
             'mismatch': self.mismatch,
+            'ref_digests': self.ref_digests,
+            'probes': self.probes,
             'stats': self.stats,
             'notes': self.notes,
         }
+
+
+def oneshot(job):
+    """A true one-shot: this fresh interpreter computes one reference itself
+    (used to cross-check the fork-server references)."""
+    from sim import refserver, record
+    _import_propka()
+    os.makedirs(job['scratch'], exist_ok=True)
+    old = sys.stdout
+    sys.stdout = Sink()
+    try:
+        ref = refserver.compute_reference(job['oneshot'], job['scratch'])
+    finally:
+        sys.stdout = old
+    return {'digest': record.digest(ref), 'seed': job.get('seed')}
 
 
 def _clip(v, n=400):
@@ -586,16 +628,19 @@ def _clip(v, n=400):
 def main():
     import faulthandler
     faulthandler.enable()
-    job = json.loads(sys.stdin.read())
+    from sim import refserver
+    jobpath = sys.argv[1]
+    job = json.loads(refserver.read_blob(jobpath).decode())
     tmo = job.get('timeout', 0)
     if tmo:
         faulthandler.dump_traceback_later(tmo, exit=True)
-    real_stdout = os.fdopen(os.dup(1), 'w')
     devnull = os.open(os.devnull, os.O_WRONLY)
     os.dup2(devnull, 1)
-    ex = Executor(job)
     try:
-        res = ex.run()
+        if 'oneshot' in job:
+            res = oneshot(job)
+        else:
+            res = Executor(job).run()
     except BaseException:
         res = {'harness_error': traceback.format_exc(), 'seed': job.get('seed')}
     finally:
@@ -604,8 +649,7 @@ def main():
             shutil.rmtree(job['scratch'], ignore_errors=True)
         except Exception:
             pass
-    real_stdout.write(json.dumps(res))
-    real_stdout.flush()
+    refserver.write_blob(jobpath + '.out', json.dumps(res).encode())
 
 
 if __name__ == '__main__':
